@@ -28,7 +28,9 @@ RULE = (
     "the elected SEQUENCE (product of first-place shares over successively reduced profiles; "
     "BoostedRandomDictator mixture (1/(c-1)) f^2/sum f^2 + (1-1/(c-1)) f) and tests counts from "
     "thousands of seeded constructions by chi-square; random tiebreaks (Plurality boundary tie, "
-    "STV elimination tie) are tested for uniformity the same way.  Non-trivial = unequal shares "
+    "STV elimination tie, and the random fallback of a borda / first-place tiebreak that resolves a "
+    "three-way tie only partly: Plurality seat boundary, IRV later-round elimination) are tested "
+    "for uniformity the same way.  Non-trivial = unequal shares "
     "(max/min >= 2), or a first-place tie on some ballot, or m >= 2.  Distinct = SHA-1 of case JSON."
 )
 ASSUMPTIONS = [
@@ -118,6 +120,12 @@ def _law_counts(args):
             elif kind == "plurality_tiebreak":
                 el = VE.Plurality(prof, spec["m"], tiebreak="random")
                 key = tuple(sorted(str(c) for s in el.get_elected() for c in s))
+            elif kind == "borda_fallback_tiebreak":
+                el = VE.Plurality(prof, spec["m"], tiebreak="borda")
+                key = tuple(sorted(str(c) for s in el.get_elected() for c in s))
+            elif kind == "irv_late_elimination_tiebreak":
+                el = VE.IRV(prof, tiebreak="random")
+                key = tuple(str(c) for c in el.election_states[3].eliminated[0])
             else:  # stv_elimination_tiebreak
                 el = VE.STV(prof, m=1, tiebreak="random")
                 key = tuple(str(c) for c in el.election_states[1].eliminated[0])
@@ -129,6 +137,8 @@ def law_of(kind, spec):
     cands, ballots = spec["cands"], spec["ballots"]
     if kind in ("RandomDictator", "BoostedRandomDictator"):
         return seq_law(kind, ballots, cands, spec["m"])
+    if kind in ("borda_fallback_tiebreak", "irv_late_elimination_tiebreak"):
+        return {tuple(k): Fraction(1, 2) for k in spec["law_keys"]}
     fp = refs.first_place(ballots, cands)
     if kind == "plurality_tiebreak":
         grp = refs.ranking_from_scores(fp)
@@ -220,6 +230,24 @@ def gen_specs(seed, tier):
         lead = cands[0]
         bl2 = [{"r": [[lead]], "w": 2}] + [{"r": [[c], [lead]], "w": 1} for c in cands[1:]]
         specs.append(("stv_elimination_tiebreak", {"cands": cands, "ballots": bl2, "m": 1}, reps, seed * 1000 + len(specs)))
+    # score-based tiebreaks that resolve a three-way tie only partly (X > Y = Z): the random fallback
+    # is uniform over the part that is still tied
+    for i in range(1 if tier == "quick" else 4):
+        x, y, z = rnd.sample(names[:3], 3)
+        w = rnd.randint(1, 3)
+        bl = [{"r": [[x], [y], [z]], "w": w}, {"r": [[x], [z], [y]], "w": w},
+              {"r": [[y], [x], [z]], "w": 2 * w}, {"r": [[z], [x], [y]], "w": 2 * w}]
+        rnd.shuffle(bl)
+        # first place 2w each; Borda x 14w > y 11w = z 11w; two seats: x and one of y, z
+        specs.append(("borda_fallback_tiebreak", {"cands": sorted([x, y, z]), "ballots": bl, "m": 2,
+                                                  "law_keys": [sorted([x, y]), sorted([x, z])]}, reps, seed * 1000 + len(specs)))
+        # IRV: L 8, x 3, y 2, z 2, E 1 (-> y), F 1 (-> z); threshold 9.  E and F go first, then
+        # x = y = z = 3 are tied at the bottom and the round-0 first-place votes put x above y = z
+        bl = [{"r": [["L"]], "w": 8}, {"r": [[x]], "w": 3}, {"r": [[y]], "w": 2}, {"r": [[z]], "w": 2},
+              {"r": [["E"], [y]], "w": 1}, {"r": [["F"], [z]], "w": 1}]
+        rnd.shuffle(bl)
+        specs.append(("irv_late_elimination_tiebreak", {"cands": sorted([x, y, z]) + ["E", "F", "L"], "ballots": bl, "m": 1,
+                                                        "law_keys": [[y], [z]]}, reps, seed * 1000 + len(specs)))
     return specs
 
 
